@@ -6,10 +6,12 @@ import (
 	"sort"
 	"strings"
 	"testing"
+	"time"
 
 	"github.com/orda-io/orda/client/pkg/model"
 	"github.com/orda-io/orda/client/pkg/orda"
 	"pgregory.net/rapid"
+	"verif/fakemongo"
 	"verif/sim"
 	"verif/stats"
 )
@@ -311,4 +313,226 @@ func TestC19Invalid(t *testing.T) {
 		}
 		col.Case(len(start) > 0, string(sb)+"|"+bad, []string{"bad=" + bad}, func() interface{} { return c.j.Header })
 	})
+}
+
+// ---------------------------------------------------------------------------------------------
+// REST patch endpoint (L1)
+
+func TestC19Rest(t *testing.T) {
+	col := stats.New("C19", t.Name(),
+		"the REST patch endpoint of the real server on a document key that is absent / exists with a stored snapshot / exists WITHOUT a stored snapshot (the background snapshot update is made to fail by the fake database's fault plan), with 0-2 subscribed clients, chains of 1-3 patches to generated targets (objects without nulls, hostile keys) interleaved with client pushes; "+
+			"oracle: the call is answered; the returned JSON equals the target; the patch operations are appended to the stored log (invariants intact, no snapshot operation inside the log); after settling every subscribed client and the server's rebuild equal refmodel(log), and equal the last target when no client pushed after it; "+
+			"non-trivial = the key existed with stored operations and no stored snapshot, or a client pushed between two patches; distinct = hash of the scenario")
+	checkProp(t, "C19", col, func(c *caseCtx) {
+		rt := c.rt
+		idseed := rapid.Uint64Range(1, 1<<40).Draw(rt, "idseed")
+		w, err := newL1World(idseed, []sim.Kind{sim.Document})
+		if err != nil {
+			c.failf("HARNESS-ERROR: %v", err)
+		}
+		defer w.close()
+		patchesHappened = true
+		k := w.keys[0]
+		base := rapid.SampledFrom([]string{"absent", "with-snapshot", "without-snapshot"}).Draw(rt, "base")
+		nclients := rapid.IntRange(0, 2).Draw(rt, "clients")
+		if base != "absent" && nclients == 0 {
+			nclients = 1
+		}
+		c.j.Header = map[string]interface{}{"base": base, "clients": nclients, "id_seed": idseed}
+		var canon strings.Builder
+		canon.WriteString(base + fmt.Sprint(nclients) + ";")
+		if base == "without-snapshot" {
+			w.env.Mongo.SetFaultHook(func(cmd *fakemongo.Cmd) fakemongo.Fault {
+				if cmd.Verb == "insert" && strings.HasSuffix(cmd.NS, ".-_-Snapshots") {
+					return fakemongo.FailBefore
+				}
+				return fakemongo.None
+			})
+		}
+		for i := 0; i < nclients; i++ {
+			cl, err := w.addClient()
+			if err != nil {
+				c.failf("HARNESS-ERROR: %v", err)
+			}
+			if base == "absent" {
+				continue // they subscribe after the first patch created the document
+			}
+			mode := "subscribe"
+			if i == 0 {
+				mode = "create"
+			}
+			d := w.open(cl, k, mode)
+			if i == 0 {
+				start := c19Object(rt, "start", 2)
+				sb, _ := json.Marshal(start)
+				if _, e := d.dt.(orda.Document).PatchByJSON(string(sb)); e != nil {
+					c.failf("HARNESS-ERROR: cannot build the start document: %v", e)
+				}
+				canon.WriteString("start=" + string(sb) + ";")
+				c.j.add(map[string]interface{}{"k": "start", "json": string(sb)})
+			}
+			if ex := w.syncClient(cl); ex == nil || exchangeProblem(cl, ex) != nil {
+				c.failf("HARNESS-ERROR: setup sync failed")
+			}
+		}
+		w.env.WaitBackground(3 * time.Second)
+		if base == "without-snapshot" {
+			if n := len(w.env.Mongo.Dump()[w.env.DBName+".-_-Snapshots"]); n != 0 {
+				c.failf("HARNESS-ERROR: a snapshot was stored although its insert is made to fail")
+			}
+		}
+		pushedBetween := false
+		var lastTarget interface{}
+		clientPushedAfterLast := false
+		npatch := rapid.IntRange(1, 3).Draw(rt, "patches")
+		for pi := 0; pi < npatch; pi++ {
+			cur, _, _ := w.serverCopyJSON(k)
+			var target interface{}
+			if cur == nil || rapid.Bool().Draw(rt, fmt.Sprintf("indep%d", pi)) {
+				target = c19Object(rt, fmt.Sprintf("t%d", pi), 3)
+			} else {
+				var edits []string
+				target = c19Edit(rt, fmt.Sprintf("t%d", pi), deepCopy(cur), 3, &edits)
+			}
+			tb, _ := json.Marshal(target)
+			c.j.add(map[string]interface{}{"k": "rest-patch", "target": string(tb)})
+			canon.WriteString("patch=" + string(tb) + ";")
+			w.env.WaitBackground(3 * time.Second)
+			resp, e, timedOut := w.env.PatchDocument(&model.PatchMessage{Collection: w.col, Key: k.Name, Json: string(tb)}, l1Deadline)
+			if timedOut {
+				c.failf("the REST patch was never answered")
+			}
+			if e != nil {
+				c.failf("the REST patch to %s failed: %v", tb, e)
+			}
+			var got interface{}
+			if err := json.Unmarshal([]byte(resp.Json), &got); err != nil {
+				c.failf("the REST patch answered with invalid JSON %q", resp.Json)
+			}
+			if sim.Canon(got) != sim.Canon(target) {
+				c.failf("the REST patch answered %s, the target was %s", sim.Canon(got), sim.Canon(target))
+			}
+			w.env.WaitBackground(3 * time.Second)
+			lastTarget, clientPushedAfterLast = target, false
+			// find the datatype the patch created/used
+			for _, dd := range w.datatypeDocs() {
+				if bstr(bget(dd, "key")) == k.Name {
+					k.duid, k.created = bstr(bget(dd, "_id")), true
+				}
+			}
+			if err := w.checkLogInvariants(); err != nil {
+				c.failf("after the REST patch: %v", err)
+			}
+			if err := c19NoInnerSnapshot(w, k); err != nil {
+				if isOpen("S17") && base == "without-snapshot" {
+					reportKnown(col, "C19", "S17", "a REST patch of an existing document that has no stored snapshot pushes the temporary datatype's own creation SNAPSHOT operation into the log; every replica that applies it is reset to the empty document")
+					col.Case(true, canon.String(), []string{"known=S17"}, nil)
+					return
+				}
+				c.failf("after the REST patch: %v", err)
+			}
+			// late subscribers / client activity between patches
+			for _, cl := range w.clients {
+				if cl.dts[k.Name] == nil {
+					w.open(cl, k, "subscribe")
+				}
+			}
+			if pi+1 < npatch && len(w.clients) > 0 && rapid.Bool().Draw(rt, fmt.Sprintf("push%d", pi)) {
+				cl := w.clients[rapid.IntRange(0, len(w.clients)-1).Draw(rt, fmt.Sprintf("pc%d", pi))]
+				if ex := w.syncClient(cl); ex == nil || exchangeProblem(cl, ex) != nil {
+					c.failf("a client sync after the REST patch failed: %v", exchangeProblem(cl, ex))
+				}
+				d := cl.dts[k.Name]
+				sim.Exec(sim.Document, d.dt, sim.Call{M: "PutToObject", Key: fmt.Sprintf("c%d", pi), Vals: []sim.Val{sim.I(int64(pi))}})
+				if ex := w.syncClient(cl); ex == nil || exchangeProblem(cl, ex) != nil {
+					c.failf("a client push after the REST patch failed: %v", exchangeProblem(cl, ex))
+				}
+				pushedBetween, clientPushedAfterLast = true, true
+				c.j.add(map[string]interface{}{"k": "client-push", "c": cl.idx})
+				canon.WriteString(fmt.Sprintf("push(c%d);", cl.idx))
+			}
+		}
+		w.env.Mongo.SetFaultHook(nil)
+		w.noConverge = false
+		if err := w.settle(); err != nil {
+			c.failf("settle: %v", err)
+		}
+		if err := w.checkConverged(); err != nil {
+			c.failf("after the REST patches: %v", err)
+		}
+		if !clientPushedAfterLast {
+			for _, cl := range w.clients {
+				if d := cl.dts[k.Name]; d != nil && d.entered {
+					if got, want := sim.Canon(d.dt.(orda.Document).GetValue()), sim.Canon(lastTarget); got != want {
+						c.failf("client %d did not converge to the target of the last REST patch:\n  client: %s\n  target: %s", cl.idx, got, want)
+					}
+				}
+			}
+		}
+		col.Case(base == "without-snapshot" || pushedBetween, canon.String(), []string{"base=" + base, fmt.Sprintf("clients=%d", nclients)}, func() interface{} {
+			return map[string]interface{}{"scenario": canon.String()}
+		})
+	})
+}
+
+// serverCopyJSON is the current value of the key as the server rebuilds it (nil if absent).
+func (w *l1World) serverCopyJSON(k *l1Key) (interface{}, uint64, error) {
+	dt, sseq, err := w.serverCopy(k)
+	if err != nil || dt == nil {
+		return nil, 0, err
+	}
+	return sim.Normalize(dt.(orda.Document).GetValue()), sseq, nil
+}
+
+func c19NoInnerSnapshot(w *l1World, k *l1Key) error {
+	log, _ := w.storedLog(k.duid)
+	for _, so := range log {
+		if so.op.OpType%10 == 0 && so.sseq != 1 {
+			return fmt.Errorf("a snapshot operation (%s of %s) sits inside the log at position %d: every replica that applies it is reset", so.op.OpType, so.op.ID.CUID, so.sseq)
+		}
+	}
+	return nil
+}
+
+// TestC19KnownS17b is the probe of known finding S17b (REST patches reuse operation sequence numbers).
+func TestC19KnownS17b(t *testing.T) {
+	col := stats.New("C19", t.Name(), "probe of known finding S17b: two REST patches of a document that has a stored snapshot")
+	defer col.Flush()
+	col.Bulk(1, 0)
+	w, err := newL1World(1717, []sim.Kind{sim.Document})
+	if err != nil {
+		fmt.Printf("HARNESS-ERROR: %v\n", err)
+		t.Fatal(err)
+	}
+	defer w.close()
+	k := w.keys[0]
+	cl, _ := w.addClient()
+	d := w.open(cl, k, "create")
+	sim.Exec(sim.Document, d.dt, sim.Call{M: "PutToObject", Key: "x", Vals: []sim.Val{sim.I(1)}})
+	w.syncClient(cl)
+	w.env.WaitBackground(3 * time.Second)
+	for i := 1; i <= 2; i++ {
+		if _, e, to := w.env.PatchDocument(&model.PatchMessage{Collection: w.col, Key: k.Name, Json: fmt.Sprintf(`{"x":1,"a":%d}`, i)}, l1Deadline); e != nil || to {
+			t.Fatalf("patch %d failed: %v %v", i, e, to)
+		}
+		w.env.WaitBackground(3 * time.Second)
+	}
+	log, _ := w.storedLog(k.duid)
+	seen := map[string]int64{}
+	dup := ""
+	for _, so := range log {
+		if prev, ok := seen[opKey(so.op)]; ok {
+			dup = fmt.Sprintf("operations at log positions %d and %d both carry the identifier %s", prev, so.sseq, opKey(so.op))
+		}
+		seen[opKey(so.op)] = so.sseq
+	}
+	switch {
+	case dup != "" && isOpen("S17b"):
+		reportKnown(col, "C19", "S17b", "two REST patches of one document number their operations from 1 under the same client id: "+dup)
+	case dup != "":
+		j := &Journal{Property: "C19", Test: t.Name(), Header: "create doc, push, wait for snapshot, REST patch twice"}
+		enumFail(t, "C19", j, "REST patches reuse operation identifiers: %s", dup)
+	case isOpen("S17b"):
+		col.Note("known finding S17b no longer reproduces")
+	}
 }
